@@ -543,4 +543,208 @@ theorem getOrCreateStaged_ext {r r1 : Repo} {id now : Str} {o : Obj} (h : ExtInv
           · intro old hm'; rw [hm] at hm'; cases hm'; exact hex
           · exact AL.get_insert_self _ _ _
 
+theorem withStaged_ext {α : Type} (r : Repo) (id now : Str) (dflt : α) (body : Obj → Except Err Unit × Option Obj × α)
+    (h : ExtInv r) (hok : RepoOk r) (hb : ∀ o, ObjOk o → ∀ o', (body o).2.1 = some o' → ObjStep o o') :
+    ExtInv (withStaged r id now dflt body).2.1 := by
+  unfold withStaged
+  split
+  · exact h
+  · rename_i r1 o hg
+    obtain ⟨h1, hmain, hso, hex, _⟩ := getOrCreateStaged_ext h hok hg
+    obtain ⟨_, ho⟩ := getOrCreateStaged_ok hok hg
+    split
+    · rename_i res o' a hbody
+      have hs := hb o ho o' (by rw [hbody])
+      exact ExtInv.saveStaged h1 (hs.stagedOk hso) (fun old hm => hs.extends (hex old (by rw [← hmain]; exact hm)))
+    · exact h1
+
+theorem createObject_ext {r r' : Repo} {id : Str} {spec : Option SpecV} {alg : DAlg} {cdir : Str} {width : Nat} {now : Str}
+    (h : ExtInv r) (he : createObject r id spec alg cdir width now = .ok r') : ExtInv r' := by
+  unfold createObject at he
+  simp only at he
+  split at he
+  · cases he
+  · split at he
+    · cases he
+    · split at he
+      · cases he
+      · split at he
+        · cases he
+        · rename_i hmain
+          split at he
+          · cases he
+          · cases he
+            have hnone : AL.get r.main (trimWs id) = none := by
+              simp only [AL.has, Bool.not_eq_true, Option.isSome_eq_false_iff, Option.isNone_iff_eq_none] at hmain
+              exact hmain
+            apply ExtInv.saveStaged (r := r) h
+            · refine ⟨fun e he => ?_, fun e he => by simp at he⟩
+              have : e ∈ (Inv.reparse _).manifest := he
+              rw [Inv.reparse_manifest] at this
+              simp at this
+            · intro old hm; rw [hnone] at hm; cases hm
+
+theorem ExtInv.eraseStaged {r : Repo} (id : Str) (h : ExtInv r) : ExtInv { r with staged := AL.erase r.staged id } := by
+  refine ⟨?_, h.main, ?_⟩
+  · intro id' o hg
+    by_cases hid : id' = id
+    · subst hid; rw [AL.get_erase_self] at hg; cases hg
+    · rw [AL.get_erase_ne _ _ _ hid] at hg; exact h.staged id' o hg
+  · intro id' o old hg hm
+    by_cases hid : id' = id
+    · subst hid; rw [AL.get_erase_self] at hg; cases hg
+    · rw [AL.get_erase_ne _ _ _ hid] at hg; exact h.ext id' o old hg hm
+
+theorem ExtInv.purge {r : Repo} (id : Str) (h : ExtInv r) : ExtInv (purge r id) := by
+  refine ⟨?_, ?_, ?_⟩
+  · intro id' o hg
+    simp only [Rocfl.purge] at hg
+    by_cases hid : id' = id
+    · subst hid; rw [AL.get_erase_self] at hg; cases hg
+    · rw [AL.get_erase_ne _ _ _ hid] at hg; exact h.staged id' o hg
+  · intro id' old hm
+    simp only [Rocfl.purge] at hm
+    by_cases hid : id' = id
+    · subst hid; rw [AL.get_erase_self] at hm; cases hm
+    · rw [AL.get_erase_ne _ _ _ hid] at hm; exact h.main id' old hm
+  · intro id' o old hg hm
+    simp only [Rocfl.purge] at hg hm
+    by_cases hid : id' = id
+    · subst hid; rw [AL.get_erase_self] at hg; cases hg
+    · rw [AL.get_erase_ne _ _ _ hid] at hg hm; exact h.ext id' o old hg hm
+
+/-- the repository after the staged object `o2` of `id` has been installed -/
+theorem ExtInv.install {r : Repo} {id : Str} {o2 : Obj} (h : ExtInv r) (ho2 : StagedOk o2) (st : List (Str × Obj))
+    (hst : ∀ id', id' ≠ id → AL.get st id' = AL.get r.staged id') (hsid : AL.get st id = none) :
+    ExtInv { repoSpec := r.repoSpec, main := AL.insert r.main id (installed (AL.get r.main id) o2), staged := st } := by
+  refine ⟨?_, ?_, ?_⟩
+  · intro id' o hg
+    by_cases hid : id' = id
+    · subst hid; rw [hsid] at hg; cases hg
+    · rw [hst id' hid] at hg; exact h.staged id' o hg
+  · intro id' old hm
+    simp only at hm
+    by_cases hid : id' = id
+    · subst hid
+      rw [AL.get_insert_self] at hm
+      cases hm
+      exact ho2.manifestLe
+    · rw [AL.get_insert_ne _ _ _ _ hid] at hm; exact h.main id' old hm
+  · intro id' o old hg hm
+    simp only at hg hm
+    by_cases hid : id' = id
+    · subst hid; rw [hsid] at hg; cases hg
+    · rw [hst id' hid] at hg
+      rw [AL.get_insert_ne _ _ _ _ hid] at hm
+      exact h.ext id' o old hg hm
+
+theorem commit_ext (r : Repo) (id : Str) (m : Meta) (keep : Digest → List CPath) (hasRoot : Bool) (h : ExtInv r) (hok : RepoOk r) :
+    ExtInv (commit r id m keep hasRoot).2 := by
+  cases hg : AL.get r.staged id with
+  | none =>
+    have : (commit r id m keep hasRoot).2 = r := by simp [commit, commitInner, hg]
+    rw [this]; exact h
+  | some o =>
+    have ho := staged_get_ok hok hg
+    have hs := prepareCommit_step m keep ho
+    have hso2 : StagedOk (prepareCommit o m keep) := hs.stagedOk (h.staged id o hg)
+    have hsaved : ExtInv (saveStaged r id (prepareCommit o m keep)) :=
+      ExtInv.saveStaged h hso2 (fun old hm => hs.extends (h.ext id o old hg hm))
+    have hinst := ExtInv.install (id := id) h hso2 (AL.erase (saveStaged r id (prepareCommit o m keep)).staged id)
+      (fun id' hid => by simp [saveStaged, AL.get_erase_ne _ _ _ hid, AL.get_insert_ne _ _ _ _ hid]) (AL.get_erase_self _ _)
+    unfold commit commitInner
+    simp only [hg]
+    split
+    · exact h
+    · split
+      · split
+        · exact hsaved
+        · split
+          · exact hsaved
+          · rename_i hnm
+            have hnone : AL.get r.main id = none := by
+              simp only [AL.has, Bool.not_eq_true, Option.isSome_eq_false_iff, Option.isNone_iff_eq_none] at hnm
+              exact hnm
+            rw [hnone] at hinst
+            exact hinst
+      · split
+        · exact hsaved
+        · rename_i old hold
+          split
+          · exact hsaved
+          · split
+            · exact hsaved
+            · rw [hold] at hinst
+              exact hinst
+
+theorem specChange_step (o : Obj) (t : SpecV) : ObjStep o { o with inv := { o.inv with spec := t } } :=
+  ⟨⟨rfl, rfl, fun _ _ => rfl, fun _ _ => rfl, fun h => h⟩, fun _ he => Or.inl he⟩
+
+theorem upgradeObject_ext (r : Repo) (id : Str) (t : SpecV) (m : Meta) (keep : Digest → List CPath) (hasLayout : Bool) (now : Str)
+    (h : ExtInv r) (hok : RepoOk r) : ExtInv (upgradeObject r id t m keep hasLayout now).2 := by
+  unfold upgradeObject
+  split
+  · exact h
+  · rename_i r1 o hg
+    obtain ⟨h1, hmain, hso, hex, _⟩ := getOrCreateStaged_ext h hok hg
+    obtain ⟨hok1, ho⟩ := getOrCreateStaged_ok hok hg
+    split
+    · exact h1
+    · split
+      · exact h1
+      · have hs := specChange_step o t
+        have ho' : ObjOk { o with inv := { o.inv with spec := t } } := InvOk.congr (a := o.inv) rfl rfl ho
+        apply commit_ext
+        · exact ExtInv.saveStaged h1 (hs.stagedOk hso) (fun old hm => hs.extends (hex old (by rw [← hmain]; exact hm)))
+        · exact saveStaged_ok hok1 ho'
+
+theorem step_ext (r : Repo) (now : Str) (op : Op) (h : ExtInv r) (hok : RepoOk r) : ExtInv (step r now op).2 := by
+  cases op with
+  | create id spec alg cdir width =>
+    simp only [step]
+    split
+    · rename_i r' hr'; exact createObject_ext h hr'
+    · exact h
+  | cpx id srcs dst recursive =>
+    simp only [step, copyExternal]
+    split
+    · exact h
+    · exact withStaged_ext _ _ _ _ _ h hok (fun o ho => copyExternalBody_step srcs dst recursive now ho)
+  | cpi id ver srcs dst recursive =>
+    simp only [step, internalOp]
+    split
+    · exact h
+    · exact withStaged_ext _ _ _ _ _ h hok (fun o ho => internalBody_step false ver srcs dst recursive now ho)
+  | mvi id srcs dst =>
+    simp only [step, internalOp]
+    split
+    · exact h
+    · exact withStaged_ext _ _ _ _ _ h hok (fun o ho => internalBody_step true none srcs dst true now ho)
+  | rm id paths recursive =>
+    simp only [step, removeFiles]
+    split
+    · exact h
+    · exact withStaged_ext _ _ _ _ _ h hok (fun o ho => removeBody_step paths recursive ho)
+  | resetp id paths recursive =>
+    simp only [step, resetPaths]
+    split
+    · exact h
+    · split
+      · exact h
+      · rename_i o hg
+        split
+        · exact h
+        · rename_i o' ho'
+          have hs := resetBody_step paths recursive now (staged_get_ok hok hg) ho'
+          exact ExtInv.saveStaged h (hs.stagedOk (h.staged id o hg)) (fun old hm => hs.extends (h.ext id o old hg hm))
+  | resetAll id => exact ExtInv.eraseStaged id h
+  | commit id m keep hasRoot => exact commit_ext r id m keep hasRoot h hok
+  | upgrade id target m keep hasLayout => exact upgradeObject_ext r id target m keep hasLayout now h hok
+  | purge id => exact ExtInv.purge id h
+
+/-- every reachable repository: staged versions extend the committed objects they were derived from -/
+theorem reachable_ext (spec : SpecV) (ops : List (Op × Str)) : RepoOk (run spec ops) ∧ ExtInv (run spec ops) :=
+  run_induction (P := fun r => RepoOk r ∧ ExtInv r) spec ⟨RepoOk.empty spec, ExtInv.empty spec⟩
+    (fun r now op h => ⟨step_ok r now op h.1, step_ext r now op h.2 h.1⟩) ops
+
 end Rocfl
